@@ -31,6 +31,7 @@ impl Monitor for C09 {
     fn floors(&self, tier: Tier) -> Vec<(&'static str, u64)> {
         vec![
             ("damaged_images_opened", tier.pick(60_000, 1_500_000)),
+            ("continuations_on_a_log_recovered_from_a_damaged_image", tier.pick(5_000, 100_000)),
             ("frames_damaged_type_first", tier.pick(1_000, 20_000)),
             ("frames_damaged_type_middle", tier.pick(300, 6_000)),
             ("frames_damaged_type_last", tier.pick(1_000, 20_000)),
@@ -239,6 +240,61 @@ impl Monitor for C09 {
                     acc.count("images_where_damage_cost_nothing_observable");
                 } else {
                     acc.count("images_where_damage_left_extra_state_(unapplied_truncate_or_delete)");
+                }
+                // second-order: the damaged frame stays in the file. Continue on the recovered log
+                // (a new queue, one more record), shut down cleanly and open again: the statement
+                // applies to that open too - the new entries were not hit, nor was anything else
+                if rng.chance(1, 6) {
+                    let cont = catch_unwind(AssertUnwindSafe(|| -> Result<Option<(String, serde_json::Value)>, String> {
+                        let mut log = mrecordlog::MultiRecordLog::open(&dir).map_err(|e| format!("second open failed: {:?}", e))?;
+                        let newq = "c09-continuation\u{2}";
+                        let created = log.create_queue(newq).is_ok();
+                        let mut appended: Option<(String, u64)> = None;
+                        if let Some(q0) = snap.queues.keys().next() {
+                            if let Ok(o) = log.append_record(q0, None, &b"continued after the damage"[..]) {
+                                appended = o.last_position.map(|p| (q0.clone(), p));
+                            }
+                        }
+                        drop(log);
+                        let log = mrecordlog::MultiRecordLog::open(&dir).map_err(|e| format!("open after the continuation failed: {:?}", e))?;
+                        let s2 = Snapshot::take(&log).map_err(|e| format!("read accessors after the continuation: {}", e))?;
+                        if created && !s2.queues.contains_key(newq) {
+                            return Ok(Some(("queue-created-after-recovery-lost".into(), json!({"recovered_after_continuation": s2.to_json()}))));
+                        }
+                        if let Some((q0, p)) = &appended {
+                            let ok = s2.queues.get(q0).map(|g| g.recs.iter().any(|r| r.pos == *p && r.len == 26)).unwrap_or(false);
+                            if !ok {
+                                return Ok(Some(("record-appended-after-recovery-lost".into(), json!({"queue": short(q0), "position": p, "recovered_after_continuation": s2.to_json()}))));
+                            }
+                        }
+                        for (q, qs) in &snap.queues {
+                            for r in &qs.recs {
+                                let ok = s2.queues.get(q).map(|g| g.recs.binary_search_by_key(&r.pos, |x| x.pos).ok().map(|i| g.recs[i] == *r).unwrap_or(false)).unwrap_or(false);
+                                if !ok {
+                                    return Ok(Some(("record-lost-at-the-open-after-the-continuation".into(), json!({"queue": short(q), "position": r.pos}))));
+                                }
+                            }
+                        }
+                        Ok(None)
+                    }));
+                    acc.eval();
+                    acc.count("continuations_on_a_log_recovered_from_a_damaged_image");
+                    match cont {
+                        Ok(Ok(None)) => {}
+                        Ok(Ok(Some((class, extra)))) => {
+                            acc.violation(format!("C09/continuation/{}/{}", class, what), case, detail(extra));
+                            img.materialize(&dir);
+                            return;
+                        }
+                        Ok(Err(e)) => {
+                            acc.violation(format!("C09/continuation/open-failed/{}", what), case, detail(json!({"error": e})));
+                            img.materialize(&dir);
+                            return;
+                        }
+                        Err(_) => {
+                            acc.count("continuation_panicked_(C10_territory)");
+                        }
+                    }
                 }
                 if !sampled {
                     sampled = true;
